@@ -243,6 +243,28 @@ def stereo_fragment(rng):
     return {'molprefix': [], 'name': 'st', 'items': items}
 
 
+def dup_label_fragment(rng):
+    """a label declared twice, as in the shipped `C. labeled c1  C? labeled c1 triple bond to c1`: later references go to
+    the first declaration"""
+    l = rng.choice(LABEL_POOL)
+    l2 = rng.choice([x for x in LABEL_POOL if x != l])
+    w = rng.choice(['single', 'double', 'triple', 'any', 'aromatic'])
+    items = [('atom', dict(prefix=None, sym=rng.choice(['C', 'C', 'O', '$']), suffix=rng.choice([None, '.', '?']), label=l, chain=[], bond=None)),
+             ('atom', dict(prefix=None, sym=rng.choice(['C', 'C', 'N', 'X']), suffix=rng.choice([None, '?']), label=l, chain=[], bond=(w, l)))]
+    if rng.random() < 0.6:
+        items.append(('atom', dict(prefix=None, sym=rng.choice(['H', 'C', '$']), suffix=None, label=l2, chain=[], bond=(rng.choice(['single', 'any']), l))))
+    return {'molprefix': [], 'name': 'dup', 'items': items}
+
+
+def atomlabel_fragment(rng):
+    """an atom that is called `AtomLabel` (finding FM2 when another bonded atom follows)"""
+    l2 = rng.choice(LABEL_POOL)
+    items = [('atom', dict(prefix=None, sym='C', suffix=None, label='AtomLabel', chain=[], bond=None))]
+    if rng.random() < 0.8:
+        items.append(('atom', dict(prefix=None, sym=rng.choice(['C', 'H', 'O']), suffix=None, label=l2, chain=[], bond=('single', 'AtomLabel'))))
+    return {'molprefix': [], 'name': 'al', 'items': items}
+
+
 # ------------------------------------------------------------------ bounded-exhaustive small fragments
 def small_fragments(thorough=False):
     """every fragment with one atom and at most one constraint / one prefix / one suffix / one molecule prefix, and
